@@ -294,12 +294,14 @@ def sup_try_from_syntax_rejects_zero_amount(P):
 
 def sup_exchange_only_from_try_from_syntax(P):
     ex = "okane_core::report::book_keeping::Exchange"
-    sites = [s for s in q.aggregates_of(P, ex) if q.not_test(s[0])]
+    # a constructor handed on as a function value (`let wrap: fn(..) -> Exchange = Exchange::Rate`) builds the value
+    # wherever it is mentioned
+    sites = [s for s in q.aggregates_of(P, ex) if q.not_test(s[0])] + [s for s in q.ctor_value_refs(P, ex) if q.not_test(s[0])]
     bad = sorted(set(s[0].key for s in sites if s[0].key != ex + "::try_from_syntax"))
     if bad or not sites:
         return False, "book_keeping::Exchange constructed in %s" % (bad or "nowhere")
     cp = "okane_core::report::book_keeping::ComputedPosting"
-    sites2 = [s for s in q.aggregates_of(P, cp) if q.not_test(s[0])]
+    sites2 = [s for s in q.aggregates_of(P, cp) if q.not_test(s[0])] + [s for s in q.ctor_value_refs(P, cp) if q.not_test(s[0])]
     bad2 = sorted(set(s[0].key for s in sites2 if s[0].key != cp + "::compute_from_syntax"))
     if bad2 or not sites2:
         return False, "ComputedPosting constructed in %s" % (bad2 or "nowhere")
